@@ -43,7 +43,25 @@ def build_history(case):
     prog = progs.gen_program(rng, "vp_%d_%d" % (case["seed"], case["idx"]),
                              **({"p_hidden": 0.4} if case["idx"] % 5 == 2 else {}))
     hist = [(prog, {"kind": "initial"})]
-    for k in range(case["edits"]):
+    if case["idx"] % 4 == 1:
+        # aimed: two explicitly versioned callees of one function change together, their version strings "1" / "12"
+        # become "11" / "2"
+        if progs.resplit_pair(prog) is None:
+            nodes = prog["nodes"]
+            for u, nd in enumerate(nodes):
+                ts = [t for t in range(u + 1, len(nodes)) if nodes[t]["kind"] == "memento" and nodes[t]["mod"] == nd["mod"]]
+                if nd["kind"] == "memento" and nd["version"] is None and len(ts) >= 2:
+                    for t in ts[:2]:
+                        if not any(c["t"] == t and c["form"] == "bare" for c in nd["calls"]):
+                            nd["calls"].append({"t": t, "form": "bare"})
+                    break
+        made = progs.make_resplit(prog)
+        if made is not None:
+            p0, p1, desc = made
+            desc["silent"] = False
+            hist = [(p0, {"kind": "initial"}), (p1, desc)]
+            prog = p1
+    for k in range(case["edits"] - (len(hist) - 1)):
         prog, desc = progs.random_edit(rng, prog)
         # now and then several edits arrive before anything is called again
         desc["silent"] = k + 1 < case["edits"] and rng.random() < 0.25
